@@ -12,7 +12,9 @@ import (
 
 const ipv4Address = `\d{1,3}\.\d{1,3}\.\d{1,3}\.\d{1,3}`
 const ipv6Address = `([0-9a-fA-F]{0,4}:){5,7}([0-9a-fA-F]{0,4})?`
-const ipv6Compressed = `([0-9a-fA-F]{0,4}:){0,5}([0-9a-fA-F]{0,4})?(::)([0-9a-fA-F]{0,4}:){0,5}([0-9a-fA-F]{0,4})?`
+// Up to seven groups may stand on one side of the "::" ("1:2:3:4:5:6:7::",
+// "::2:3:4:5:6:7:8"), i.e. up to six groups followed by a colon plus one more.
+const ipv6Compressed = `([0-9a-fA-F]{0,4}:){0,6}([0-9a-fA-F]{0,4})?(::)([0-9a-fA-F]{0,4}:){0,6}([0-9a-fA-F]{0,4})?`
 const ipv6Full = `(` + ipv6Address + `(` + ipv4Address + `))` +
 	`|(` + ipv6Compressed + `(` + ipv4Address + `))` +
 	`|(` + ipv6Address + `)` + `|(` + ipv6Compressed + `)`
